@@ -16,6 +16,7 @@ package h2
 
 import (
 	"fmt"
+	"sync/atomic"
 
 	"golang.org/x/net/http2"
 	"golang.org/x/net/http2/hpack"
@@ -61,6 +62,9 @@ type queuedDataFrame struct {
 	streamID  uint32
 	endStream bool
 	data      []byte
+	// maxFrameSize is the receiver's current maximum frame size, accessed atomically. The receiver
+	// may have lowered it since the frame was queued.
+	maxFrameSize *uint32
 }
 
 func (f *queuedDataFrame) StreamID() uint32 {
@@ -72,7 +76,16 @@ func (f *queuedDataFrame) flowControlSize() int {
 }
 
 func (f *queuedDataFrame) send(dest *http2.Framer) error {
-	return dest.WriteData(f.streamID, f.endStream, f.data)
+	data := f.data
+	if f.maxFrameSize != nil {
+		for max := int(atomic.LoadUint32(f.maxFrameSize)); max > 0 && len(data) > max; {
+			if err := dest.WriteData(f.streamID, false, data[:max]); err != nil {
+				return err
+			}
+			data = data[max:]
+		}
+	}
+	return dest.WriteData(f.streamID, f.endStream, data)
 }
 
 func (f *queuedDataFrame) String() string {
